@@ -8,7 +8,7 @@
 (*   trits                : sequences of -1..1                             *)
 (*   big naturals         : little-endian limb sequences (module BigNat)   *)
 (***************************************************************************)
-EXTENDS Integers, Sequences, FiniteSets, TLC
+EXTENDS Integers, Sequences, FiniteSets, TLC, SequencesExt
 
 Byte == 0..255
 Trit == {-1, 0, 1}
@@ -40,9 +40,10 @@ Groups(s, w) ==
   IN [g \in 1..n |-> Slice(s, (g-1)*w + 1, g*w)]
 
 \* Sum / fold of an integer sequence, iterative via a function definition.
-SumSeq(s) ==
-  LET acc[i \in 0..Len(s)] == IF i = 0 THEN 0 ELSE acc[i-1] + s[i]
-  IN acc[Len(s)]
+\* NOTE (TLC): folds go through SequencesExt!FoldLeft, which is implemented
+\* strictly in Java.  A hand-written recursion whose step uses the previous
+\* accumulator twice is re-evaluated lazily by TLC and becomes exponential.
+SumSeq(s) == FoldLeft(LAMBDA a, b : a + b, 0, s)
 
 Pow(b, e) ==
   LET p[i \in 0..e] == IF i = 0 THEN 1 ELSE b * p[i-1]
